@@ -457,6 +457,43 @@ def c06_kf_template_arg_qualifiers(which: int) -> bool:
     return ok
 
 
+BARE_PAIRS = [("ns1::Pose", "ns2::Pose", "ns1.Pose", "ns2.Pose"), ("a::b::Key", "a::Key", "a.b.Key", "a.Key"), ("Pose", "ns2::Pose", "Pose", "ns2.Pose")]
+BARE_PRELUDE = "class Pose { Pose(); }; namespace ns1 { class Pose { Pose(); }; } namespace ns2 { class Pose { Pose(); }; } namespace a { class Key { Key(); }; namespace b { class Key { Key(); }; } }\n"
+
+
+def c06_same_bare_name(pair: int, first: int, second: int, swap: int) -> bool:
+    """
+    Two parameter types that share their unqualified name (`ns1::Pose`, `ns2::Pose`): the first is a parameter of a method /
+    static method / constructor / function declared EARLIER, the second of one declared later — every call-site guard tests
+    the MATLAB class of ITS OWN declared type (`ns2.Pose`), at every arity, whatever was wrapped before.
+    pre: 0 <= pair < len(BARE_PAIRS) and 0 <= first <= 3 and 0 <= second <= 3 and 0 <= swap <= 1
+    post: _
+    """
+    pair, first, second, swap = pick(pair, 0, len(BARE_PAIRS)), pick(first, 0, 4), pick(second, 0, 4), pick(swap, 0, 2)
+    with concrete():
+        t1, t2, m1, m2 = BARE_PAIRS[pair]
+        if swap:
+            t1, t2, m1, m2 = t2, t1, m2, m1
+
+        def decl(role, cls, ty):
+            sig = "const %s& p, int k = 1" % ty
+            return ["class %s { %s(%s); };" % (cls, cls, sig), "class %s { %s(); void go(%s) const; };" % (cls, cls, sig),
+                    "class %s { %s(); static double go(%s); };" % (cls, cls, sig), "double %sfn(%s);" % (cls.lower(), sig)][role]
+        text = BARE_PRELUDE + "namespace top { " + decl(first, "Robot", t1) + " " + decl(second, "Planner", t2) + " }"
+        files, cpp, _w = pipe.matlab(text)
+        problems = []
+        for role, cls, mat in ((first, "Robot", m1), (second, "Planner", m2)):
+            m = files.get("+top/%sfn.m" % cls.lower() if role == 3 else "+top/%s.m" % cls, "")
+            guards = re.findall(r"(?:nargin|length\(varargin\)) == (\d)( && isa\(varargin\{1\},'([^']*)'\))?", m)
+            seen = [(g[0], g[2]) for g in guards if g[1]]
+            want = [("2", mat), ("1", mat)]
+            if sorted(seen) != sorted(want):
+                problems.append("%s (parameter of MATLAB class %s): guards %r" % (cls, mat, seen))
+        ok = not problems or _fail(text=text, problems=problems)
+    reached({"pair": pair, "first": first, "second": second, "swap": swap})
+    return ok
+
+
 def c06_kf_function_enum(which: int) -> bool:
     """
     Witness replay for known finding C06-foreign-scope-enum (free function taking a class-scoped enum).
@@ -486,6 +523,8 @@ def conds(tier):
                 bounds="3 overloads x %d return shapes each x {free function, method, static method}%s" % (NR, "" if not q else " (third shape and role derived)")),
         xh.Cond(M, "c06_all_types", t(420, 2400), path_timeout=60, kind=sb, examples=["kind=0, r=0, a=43, role=1", "kind=0, r=0, a=3, role=0", "kind=1, r=11, a=35, role=2", "kind=1, r=27, a=43, role=3"],
                 bounds="every in-dialect leaf of the C01 type algebra and %s templated roots over unqualified leaves, as first parameter (%s)" % ("every second (root, leaf) pair of the" if not q else "every eighth (root, leaf) pair of the", "4 roles" if not q else "role derived")),
+        xh.Cond(M, "c06_same_bare_name", t(300, 900), path_timeout=60, kind=sb, examples=["pair=0, first=1, second=0, swap=0", "pair=1, first=2, second=3, swap=1", "pair=2, first=1, second=1, swap=0"],
+                bounds="%d type pairs sharing a bare name x 4 x 4 roles of the earlier / later callable x both orders" % len(BARE_PAIRS)),
         xh.Cond(M, "c06_kf_template_arg_qualifiers", 60, path_timeout=60, kind=sb, bounds="witness of a listed known finding", needs_confirm=False),
         xh.Cond(M, "c06_kf_function_enum", 60, path_timeout=60, kind=sb, bounds="witness of a listed known finding", needs_confirm=False),
         xh.Cond(M, "c06_returns", t(200, 900), path_timeout=60, kind=sb, examples=["role=1, ret=7, n=1"], bounds="3 roles x %d return shapes x 0-1 parameters" % NR),
